@@ -704,6 +704,14 @@ impl<'r> G<'r> {
         for l in labels {
             let s = self.st(StmtKind::Label(l));
             list.push(s);
+            let t = self.trace();
+            list.push(t);
+            // a plain RETURN after the target of a RETURN label: it must return from the
+            // enclosing GOSUB if one is pending, and raise error 3 otherwise
+            if !self.in_proc && self.rng.chance(1, 2) {
+                let r = self.st(StmtKind::Return(None));
+                list.push(r);
+            }
         }
         list
     }
